@@ -164,4 +164,9 @@ let () =
              match l with x :: t -> Some (List.fold_left Z.add x t) | [] -> None) in
            { model; spec; dom = posb s }
          | _ -> failwith "trace needs dim >= 2")
-    | _ -> failwith "trace")
+    | _ -> failwith "trace");
+  (* dt S:fn S:dtype S:kd A:arr axis init — explicit result dtype: same routing and (small) values as the plain reduction *)
+  register "dt" (fun a -> match a with
+    | [fn; _; kd; arr; ax; init] ->
+        (Hashtbl.find handlers "reduce") [fn; Str "named"; Str "x"; kd; Str "dyn"; arr; ax; init]
+    | _ -> failwith "dt")
